@@ -416,6 +416,10 @@ func runShared(c *Ctx) {
 				if root == "call-result" {
 					okk, why = true, "slice returned by a call (reflect.Value.Call and the value-set renderers return exact-length slices)"
 				}
+				if root == "captured" && !inEsc {
+					// a local helper closure growing an accumulator of its enclosing function
+					okk, why = c.capturedAccumulator(w.target)
+				}
 				c.R.Add("SHARED-W", key, fname, pos, okk, "no call appends onto a slice that other calls can reach", why)
 				continue
 			}
@@ -917,4 +921,55 @@ func onlyRead(in ssa.Instruction) bool {
 		}
 	}
 	return true
+}
+
+// capturedAccumulator: the appended-to slice is a variable of the enclosing function that only ever holds
+// nil / fresh slices / earlier append results (a local accumulator captured by a non-escaping helper closure).
+func (c *Ctx) capturedAccumulator(target ssa.Value) (bool, string) {
+	ld, ok := target.(*ssa.UnOp)
+	if !ok {
+		return false, "captured slice not identified"
+	}
+	fv, ok := ld.X.(*ssa.FreeVar)
+	if !ok {
+		return false, "captured slice not identified"
+	}
+	al, ok := c.P.Binding(fv).(*ssa.Alloc)
+	if !ok {
+		return false, "captured binding is not a local variable"
+	}
+	check := func(v ssa.Value) bool {
+		if localAccumulator(v) || c.P.FreshIn(v) {
+			return true
+		}
+		// append(<the variable itself>, …) inside the closure
+		if cl, ok := v.(*ssa.Call); ok && core.CalleeName(cl.Common()) == "builtin.append" {
+			if l2, ok := cl.Common().Args[0].(*ssa.UnOp); ok {
+				if f2, ok := l2.X.(*ssa.FreeVar); ok && c.P.Binding(f2) == ssa.Value(al) {
+					return true
+				}
+				if l2.X == ssa.Value(al) {
+					return true
+				}
+			}
+		}
+		return false
+	}
+	for _, ref := range *al.Referrers() {
+		if st, ok := ref.(*ssa.Store); ok && st.Addr == ssa.Value(al) && !check(st.Val) {
+			return false, "the captured slice variable is assigned memory that is not local"
+		}
+	}
+	for _, f := range c.P.Funcs {
+		for _, v := range f.FreeVars {
+			if c.P.Binding(v) == ssa.Value(al) {
+				for _, ref := range *v.Referrers() {
+					if st, ok := ref.(*ssa.Store); ok && st.Addr == ssa.Value(v) && !check(st.Val) {
+						return false, "the captured slice variable is assigned memory that is not local"
+					}
+				}
+			}
+		}
+	}
+	return true, "local accumulator of the enclosing function, grown by a helper closure that does not outlive it"
 }
